@@ -4,6 +4,7 @@ import GB.C08.HandoffProofs
 import GB.C08.ConnProofs
 import GB.C08.StallProofs
 import GB.C08.FenceProofs
+import GB.C08.FenceWSProofs
 import GB.C08.TrailerProofs
 import GB.Generated.Facts
 /-
@@ -514,6 +515,63 @@ theorem C08_fence_http_body (ls : List Fence.Lbl) (s : Fence.St)
   | some t =>
     rw [h1, h3 rfl, htr, (h2 t htr).1]
     simp [respondHTTPWith, List.flatMap, List.map_map, Function.comp_def]
+
+/-- gRPC-Web over WebSocket, no write failed (`Fence.NoWriteFailed`: no helper went through `hFail` — states `failed` /
+    `doneErr` — and the handler's trailer write did not fail): in every reachable state of phase done the sequence of
+    WebSocket messages is, message for message and byte for byte, `wsRespondWith` (the sequential model of
+    `C08_ws_resp_shape…`: header frame before the first data frame and only then, data frames, ONE trailer frame, last) of
+    the header block written (`hdrW`, = `encodeMD s.header` at the time of the first send), the messages whose Send
+    returned nil — `written`, which at phase done is exactly the helpers in `doneOk`, second conjunct — in wire order, and
+    the trailer metadata and status Forward returned. When no message was sent there is no header frame (the header
+    argument is then irrelevant to `wsRespondWith`). -/
+theorem C08_fence_ws_body (ls : List Fence.Lbl) (s : Fence.St)
+    (hr : GB.LTS.run Fence.step (Fence.init .fixed .ws) ls = some s) (hd : s.phase = .done) (hn : Fence.NoWriteFailed s) :
+    s.out = wsRespondWith (s.hdrW.getD []) (s.written.map (·.2)) (encodeMD (trailerWithStatus s.trailer s.code s.smsg)) ∧
+    (∀ i h, s.helpers i = some h → (h.pc = .doneOk ↔ (i, h.msg) ∈ s.written)) ∧
+    (s.written = [] → s.hdrW = none) := by
+  have hI := Fence.invW_reachable s (GB.LTS.run_reachable Fence.step _ _ ls GB.LTS.Reachable.init hr)
+  refine ⟨Fence.ws_body_of s hI.1 hI.2 hn hd, fun i h hh => Fence.done_written_iff s hI.1 hI.2 hd i h hh, ?_⟩
+  intro hw
+  cases hq : s.hdrW with
+  | none => rfl
+  | some hd0 =>
+    have hfin : s.finished = true := hI.1.fin.2 (Or.inr (Or.inr hd))
+    rcases hI.2.b (by simp [hq]) with h | ⟨i, h, hh, hp | hf⟩
+    · exact absurd hw h
+    · have := hI.1.pass i h hh hp; rw [hfin] at this; cases this
+    · rw [hn.1 i h hh] at hf; cases hf
+
+/-- gRPC-Web over WebSocket, failing writes. A failed `socket.WriteMessage` means the connection is gone, so every later
+    write fails too: the run is `ls1` (up to `s1` no write failed and the trailer was not attempted) followed by `ls2` in
+    which no write succeeds (no `hWriteHdr` / `hWrite` / `writeTrailer` label: `hFail`, `trailerFails`, refusals, late
+    helpers … only). Then the output is a PREFIX of `wsRespondWith` cut at a message (= frame) boundary: for every trailer
+    block `T` there is a non-empty list of whole frames `suffix` with `out ++ suffix = wsRespondWith hdr (written ++ rest) T`,
+    where `rest = []` except in the one case that the header frame went out and the first data write failed (then the
+    output is the lone header frame and `rest` is that one message — `wsRespondWith` of NO message has no header frame).
+    The persistence hypothesis is needed: the LTS lets a write fail and a later one succeed, and then (header write fails,
+    `sentMD` is already true, next Send writes its data frame) the output has data frames and no header frame —
+    `C08_fence_ws_transient_header_failure`. -/
+theorem C08_fence_ws_prefix_on_write_failure (ls1 ls2 : List Fence.Lbl) (s1 s : Fence.St)
+    (hr1 : GB.LTS.run Fence.step (Fence.init .fixed .ws) ls1 = some s1)
+    (hnf : ∀ i h, s1.helpers i = some h → h.pc.writeFailed = false) (hnd : s1.phase ≠ .done)
+    (hr2 : GB.LTS.run Fence.step s1 ls2 = some s) (hfail : ∀ l ∈ ls2, l.isWrite = false) (T : MD) :
+    ∃ rest suffix, suffix ≠ [] ∧
+      s.out ++ suffix = wsRespondWith (s.hdrW.getD []) (s.written.map (·.2) ++ rest) T ∧
+      (rest = [] ∨ (s.written = [] ∧ s.hdrW.isSome ∧ ∃ m, rest = [m])) := by
+  have hI := Fence.invW_reachable s1 (GB.LTS.run_reachable Fence.step _ _ ls1 GB.LTS.Reachable.init hr1)
+  obtain ⟨h1, h2, h3⟩ := Fence.nonwrite_run s1 ls2 s hfail hr2
+  rw [h1, h2, h3]
+  exact Fence.ws_prefix_of s1 hI.1 hI.2 hnf hnd T
+
+/-- Why the prefix theorem assumes failures persist: in the LTS (and in the code, were a transport to fail once and then
+    recover) a failing HEADER write leaves `sentMD = true`, the next Send writes its data frame without a header frame,
+    and the output `[data, trailer]` is not `wsRespondWith` of anything with a message. Kernel-evaluated. -/
+theorem C08_fence_ws_transient_header_failure :
+    (GB.LTS.run Fence.step (Fence.init .fixed .ws)
+      [.send [7], .hLock 0, .hCheck 0, .hFail 0, .hUnlock 0, .send [8], .hLock 1, .hCheck 1, .hWrite 1, .hUnlock 1,
+       .fwdReturn 0 [], .finLock, .finSet, .finUnlock, .writeTrailer]).map (fun s => (s.out, s.hdrW))
+      = some ([lpmMessage [8], lpmTrailer (encodeMD (trailerWithStatus [] 0 []))], none) := by
+  decide
 
 /-- Nothing after the trailer: from a state in which the handler has written (or tried to write) the trailer frame, no
     continuation whatsoever — helpers that were abandoned and complete late included — changes the output. -/
